@@ -157,3 +157,52 @@ fn a_blocked_vectored_write_is_woken_when_the_peer_drains_the_socket() {
     while out.is_none() { el.dispatch(Duration::from_millis(100), &mut out).unwrap(); assert!(t.elapsed() < Duration::from_secs(10), "the writer was never woken after the reader drained the socket buffer"); }
     assert!(out.unwrap() == data);
 }
+
+/// round 9 (seed C17-6): gathered writes of several slices while the socket buffer fills up in the middle of a call and the
+/// peer drains between dispatches: the bytes the writer was told were accepted are exactly the bytes the peer receives
+#[test]
+fn gathered_writes_stay_byte_exact_when_the_socket_fills_up_mid_call() {
+    use std::cell::Cell;
+    use std::io::{IoSlice, Read};
+    use std::rc::Rc;
+    const TOTAL: usize = 2 * 1024 * 1024;
+    let mut el: EventLoop<()> = EventLoop::try_new().unwrap();
+    let h = el.handle();
+    let (ex, sched) = executor::<()>().unwrap();
+    h.insert_source(ex, |(), _, _| {}).unwrap();
+    let (tx, mut rx) = UnixStream::pair().unwrap();
+    rx.set_nonblocking(true).unwrap();
+    let mut tx = h.adapt_io(tx).unwrap();
+    let data: Rc<Vec<u8>> = Rc::new((0..TOTAL).map(|i| ((i % 251) as u8) ^ ((i / 251) as u8)).collect());
+    let done = Rc::new(Cell::new(false));
+    let (d2, done2) = (data.clone(), done.clone());
+    sched.schedule(async move {
+        let mut off = 0;
+        while off < d2.len() {
+            let end = (off + 3000).min(d2.len());
+            let slices: Vec<IoSlice> = d2[off..end].chunks(600).map(IoSlice::new).collect();
+            let n = tx.write_vectored(&slices).await.unwrap();
+            assert!(n > 0 && n <= end - off);
+            off += n;
+        }
+        done2.set(true);
+    }).unwrap();
+    let mut got = Vec::with_capacity(TOTAL);
+    let mut chunk = vec![0u8; 64 * 1024];
+    let t = Instant::now();
+    loop {
+        el.dispatch(Some(Duration::from_millis(20)), &mut ()).unwrap();
+        loop {
+            match rx.read(&mut chunk) {
+                Ok(0) => break,
+                Ok(n) => got.extend_from_slice(&chunk[..n]),
+                Err(e) if e.kind() == std::io::ErrorKind::WouldBlock => break,
+                Err(e) => panic!("read failed: {e}"),
+            }
+        }
+        if done.get() { break; }
+        assert!(t.elapsed() < Duration::from_secs(15), "the writer task never completed");
+    }
+    assert_eq!(got.len(), data.len(), "the peer received a different number of bytes than the writer was told were accepted");
+    assert!(got == *data, "the byte stream was altered in transit");
+}
